@@ -75,6 +75,8 @@ class Interp:
         for name, u in list(measured.Unit._by_name.items()):
             self._register_token(u)
         self.known_scanned = len(measured.Unit._known)
+        self.restarted = 0
+        self.carry = None
         self.creators = {}      # id(unit) -> qualname of the library function that interned it
         self._inj = None
         self._unit_new_code = measured.Unit.__new__.__code__
@@ -184,9 +186,47 @@ class Interp:
         return ABSENT, None
 
     # ------------------------------------------------------------ running
+    RESTART_KEEP = {"define_unit", "dim_unit", "derive", "alias", "dim_derive", "dim_define", "scale",
+                    "declare", "import"}
+
+    def continuation_ops(self, ops, k):
+        """What the next world executes after a restart at ops[k]: the definitions of
+        this world (with whatever they need to build their operands), then the rest."""
+        by_id = {o.get("id"): o for o in ops[:k]}
+        keep = set()
+        stack = []
+
+        def refs(o):
+            out = []
+            for v in o.values():
+                if isinstance(v, list) and len(v) >= 2 and v[0] == "r" and isinstance(v[1], int):
+                    out.append(v[1])
+            return out
+        for o in ops[:k]:
+            if o["op"] in self.RESTART_KEEP or (o["op"] == "prefix_new" and (o.get("name") or o.get("symbol"))):
+                if "inject" in o or o.get("fault"):
+                    continue
+                keep.add(o.get("id"))
+                stack.extend(refs(o))
+        while stack:
+            i = stack.pop()
+            if i in keep or i not in by_id:
+                continue
+            if by_id[i]["op"] in ("dump", "load", "restart"):
+                continue
+            keep.add(i)
+            stack.extend(refs(by_id[i]))
+        return [o for o in ops[:k] if o.get("id") in keep] + list(ops[k + 1:])
+
     def run(self, ops):
+        cont = None
         try:
-            for op in ops:
+            for k, op in enumerate(ops):
+                if op["op"] == "restart":
+                    self.faults_fired["F5"] = self.faults_fired.get("F5", 0) + 1
+                    self.log.append({"i": op.get("id"), "op": "restart"})
+                    cont = self.continuation_ops(ops, k)
+                    break
                 self.step += 1
                 self.exec_op(op)
         finally:
@@ -194,7 +234,24 @@ class Interp:
         self.step += 1
         for c in self.clauses:
             c.at_end()
-        return self.result()
+        res = self.result()
+        if cont is not None:
+            blobs = {str(i): v[1] for i, v in self.vals.items() if v[0] == "blob" and v[1] is not ABSENT}
+            res["continue_ops"] = cont
+            res["carry"] = {"blobs": blobs, "digest": res["digest"], "n_ops": res["n_ops"],
+                            "violations": res["violations"], "counters": res["counters"],
+                            "probes": res["probes"], "faults_fired": res["faults_fired"],
+                            "restarts": self.restarted + 1}
+        return res
+
+    def adopt(self, carry):
+        """State that survived the restart: serialized blobs only (plus the accumulated
+        verdicts of the previous world, for reporting)."""
+        self.restarted = carry.get("restarts", 1)
+        for i, blob in (carry.get("blobs") or {}).items():
+            self.vals[int(i)] = ("blob", blob)
+            self.mvals[int(i)] = None
+        self.carry = carry
 
     def result(self):
         lines = [canon(l) for l in self.log]
@@ -543,6 +600,59 @@ class Interp:
             raise ValueError(codec)
         return op["kind"], y, mx, {"_orig": x}
 
+    def _serialise(self, x, codec):
+        import base64
+
+        if codec.startswith("pickle"):
+            return {"codec": codec, "data": base64.b64encode(pickle.dumps(x, protocol=int(codec[6:]))).decode()}
+        if codec == "json":
+            from measured.json import MeasuredJSONEncoder
+
+            return {"codec": codec, "data": json.dumps(x, cls=MeasuredJSONEncoder)}
+        if codec == "composite":
+            m, text = x.__composite_values__()
+            return {"codec": codec, "data": [mag_desc(m), text]}
+        raise ValueError(codec)
+
+    def _deserialise(self, blob):
+        import base64
+
+        codec = blob["codec"]
+        if codec.startswith("pickle"):
+            return pickle.loads(base64.b64decode(blob["data"]))
+        if codec == "json":
+            from measured.json import MeasuredJSONDecoder
+
+            return json.loads(blob["data"], cls=MeasuredJSONDecoder)
+        if codec == "composite":
+            (t, r), text = blob["data"]
+            m = {"int": int, "float": float}.get(t)
+            mag = Decimal(r[9:-2]) if t == "Decimal" else m(r)
+            return self.L.Quantity(mag, text)
+        raise ValueError(codec)
+
+    def op_dump(self, op, prepare, prepared=None):
+        if prepare:
+            return self._args(op, ("x", op["kind"]))
+        (x, mx), = prepared
+        blob = self._serialise(x, op["codec"])
+        blob["kind"] = op["kind"]
+        blob["model"] = M.nf_json(mx) if (mx is not None and op["kind"] in ("unit", "qty")) else None
+        if op["kind"] == "qty":
+            blob["m"] = mag_desc(x.magnitude)
+        return "blob", blob, mx, {"codec": op["codec"]}
+
+    def op_load(self, op, prepare, prepared=None):
+        if prepare:
+            ent = self.vals.get(op["blob"][1])
+            if ent is None or ent[0] != "blob" or ent[1] is ABSENT:
+                return None
+            return [(ent[1], None)]
+        (blob, _), = prepared
+        y = self._deserialise(blob)
+        mx = M.nf_from_json(blob["model"]) if blob.get("model") else None
+        return blob["kind"], y, mx, {"_blob": blob, "codec": blob["codec"], "restarted": bool(self.restarted)}
+
     def op_evict(self, op, prepare, prepared=None):
         if prepare:
             return []
@@ -801,14 +911,46 @@ def make_clauses(prop, interp):
     return [c(interp) for c in table.get(prop, [])]
 
 
-def run(req, boot):
-    interp = Interp(boot, req["prop"], req.get("opts"))
+def merge_carry(res, carry):
+    """Fold the previous world's verdicts into this world's result."""
+    from sim.util import digest as _digest
+
+    res["digest"] = _digest([carry["digest"], res["digest"]])
+    res["n_ops"] += carry.get("n_ops", 0)
+    res["violations"] = list(carry.get("violations") or []) + res["violations"]
+    for key in ("counters", "probes", "faults_fired"):
+        for k, v in (carry.get(key) or {}).items():
+            res[key][k] = res[key].get(k, 0) + v
+    return res
+
+
+def run(req, boot, interp_cls=None):
+    interp = (interp_cls or Interp)(boot, req["prop"], req.get("opts"))
     ops = req.get("ops")
     if ops is None:
         from sim import gen_a
 
         ops = gen_a.generate(req["seed"], req["prop"], boot.snapshot, req.get("params") or {})
+    carry = req.get("carry")
+    if carry:
+        interp.adopt(carry)
     res = interp.run(ops)
-    res["ops"] = ops if req.get("want_ops") else None
-    res["n_generated"] = len(ops)
+    if carry:
+        res = merge_carry(res, carry)
+        if "carry" in res:
+            res["carry"]["digest"] = res["digest"]
+            res["carry"]["n_ops"] = res["n_ops"]
+            res["carry"]["violations"] = res["violations"]
+            for key in ("counters", "probes", "faults_fired"):
+                res["carry"][key] = res[key]
+    if "continue_ops" in res:
+        nxt = {k: v for k, v in req.items() if k not in ("ops", "carry", "seed")}
+        nxt["ops"] = res.pop("continue_ops")
+        nxt["carry"] = res.pop("carry")
+        nxt["original_ops"] = req.get("original_ops") or (ops if req.get("want_ops") else None)
+        nxt["n_generated"] = req.get("n_generated") or len(ops)
+        return {"continue": nxt}
+    orig = req.get("original_ops")
+    res["ops"] = (orig or ops) if req.get("want_ops") else None
+    res["n_generated"] = req.get("n_generated") or len(ops)
     return res
